@@ -3,8 +3,9 @@
    random bytes in chunks, then the peer hangs up; a stream that was handed out is used further
    (read, read again, flush, close).  Statement: never a panic (a `panic` line matches no action);
    the enumerated malformed inputs (oversized frame, garbage of maximal length, name without '/',
-   more than 1000 protocols, empty frame, wrong header) end the negotiation with an error - not with
-   success and not by hanging after the peer hung up. *)
+   more than 1000 protocols, empty frame, wrong header, confirmation of a protocol never proposed) end
+   the negotiation with an error - not with success and not by hanging after the peer hung up; on the
+   stream of a V1Lazy dialer (which settled before reading anything) no read may succeed then. *)
 EXTENDS TraceIO
 VARIABLES l, expect, res, hung
 vars == <<l, expect, res, hung>>
@@ -12,10 +13,12 @@ R == Rec[l]
 Init == l = 1 /\ expect = "any" /\ res = "none" /\ hung = FALSE /\ InitReg
 Reset == R.e = "reset" /\ expect' = R.expect /\ res' = "none" /\ hung' = FALSE
 Res == /\ R.e = "res" /\ res = "none" /\ res' = R.r
-       /\ (expect = "any" \/ R.r = expect) = TRUE
+       /\ (expect \in {"any", "lazy_err"} \/ R.r = expect) = TRUE
        /\ UNCHANGED <<expect, hung>>
 Hangup == R.e = "hangup" /\ hung' = TRUE /\ UNCHANGED <<expect, res>>
-Io == /\ R.e = "io" /\ res = "ok" /\ R.r \in {"ok", "err", "pending"} /\ UNCHANGED <<expect, res, hung>>
+Io == /\ R.e = "io" /\ res = "ok" /\ R.r \in {"ok", "err", "pending"}
+      /\ (expect = "lazy_err" /\ R.op = "read") => R.r # "ok"      \* the optimistic dialer must learn of the failure by reading
+      /\ UNCHANGED <<expect, res, hung>>
 Quiet == R.e \in {"pending", "feed"} /\ UNCHANGED <<expect, res, hung>>
 End == R.e = "end" /\ (hung => (R.done /\ res # "none")) /\ UNCHANGED <<expect, res, hung>>
 Next == l <= NRec /\ l' = l + 1 /\ (Reset \/ Res \/ Hangup \/ Io \/ Quiet \/ End)
